@@ -45,6 +45,10 @@ def one(job):
     rng = random.Random(seed)
     feats = [{"scid_c_len": rng.choice([0, 0, 8]), "scid_s_len": rng.choice([0, 8, 8, 3]), "retry": False,
               "prefix_cid": (q == 0 and seed % 2 == 0)} for q in range(nquic)]
+    if nquic:
+        # one connection issues a new CID with Retire Prior To = 1 while the peer still has datagrams with the old CID in
+        # flight: which CIDs the session knows must not depend on set iteration order
+        feats[-1].update({"new_cid": True, "ncid_retire": 1, "ncid_lazy": 2, "scid_c_len": 8, "scid_s_len": 8, "same_cid": False})
     mx = e2e.Mixed(rng, [e2e.random_combo(rng) for _ in range(ntls)], n_quic=nquic, quic_features=feats)
     other = e2e.Mixed(rng, [e2e.random_combo(rng)], n_quic=1)
     d = tempfile.mkdtemp(prefix="tlx18_", dir=tool.TMPBASE)
@@ -73,11 +77,11 @@ def one(job):
         base_env["PYTHONPATH"] = tool.REPO
         outs = {}
 
-        def cli(tag, env_extra, cwd):
+        def cli(tag, env_extra, cwd, keys=True):
             out = os.path.join(d, f"out_{tag}.pcapng")
             env = dict(base_env)
             env.update(env_extra)
-            p = subprocess.run([sys.executable, "-W", "ignore", "-m", "tlexport.main", "-i", cap, "-s", kl, "-o", out] + list(args),
+            p = subprocess.run([sys.executable, "-W", "ignore", "-m", "tlexport.main", "-i", cap] + (["-s", kl] if keys else []) + ["-o", out] + list(args),
                                cwd=cwd, env=env, stdout=subprocess.PIPE, stderr=subprocess.PIPE, text=True, timeout=300)
             outs[tag] = (p.returncode, sha(out))
         sub = os.path.join(d, "elsewhere")
@@ -97,6 +101,15 @@ def one(job):
         for tag, res in outs.items():
             if res != ref:
                 fails.append(f"nondeterministic:{tag}: {res} vs reference {ref}")
+        # the same command WITHOUT -s: the environment (SSLKEYLOGFILE of the shell that happens to run the tool) is no option
+        base_env.pop("SSLKEYLOGFILE", None)
+        cli("nos", {"PYTHONHASHSEED": "0"}, tool.REPO, keys=False)
+        cli("nos_envkeys", {"PYTHONHASHSEED": "0", "SSLKEYLOGFILE": kl}, tool.REPO, keys=False)
+        cli("nos_envmissing", {"PYTHONHASHSEED": "0", "SSLKEYLOGFILE": os.path.join(d, "nope.log")}, sub, keys=False)
+        ref_nos = outs["nos"]
+        for tag in ("nos_envkeys", "nos_envmissing"):
+            if outs[tag] != ref_nos:
+                fails.append(f"nondeterministic:{tag}: {outs[tag]} vs the run without -s in a clean environment {ref_nos}")
         # in-process repetition: A, A  and  B, A
         o1, o2, o3, o4 = (os.path.join(d, f"rep{i}.pcapng") for i in range(4))
         a = lambda o: ["-i", cap, "-s", kl, "-o", o] + list(args)
@@ -105,8 +118,10 @@ def one(job):
         o5, o6 = os.path.join(d, "rep5.pcapng"), os.path.join(d, "rep6.pcapng")
         bad_out = b(os.path.join(d, "no-such-dir", "x.pcapng"))                    # run B dies when opening its output file
         bad_keys = ["-i", cap2, "-s", os.path.join(d, "missing.log"), "-o", o6, "-p", "5555"]   # run dies on a missing key log
+        o7, o8 = os.path.join(d, "rep7.pcapng"), os.path.join(d, "rep8.pcapng")
+        a_nos = ["-i", cap, "-o", o8] + list(args)          # the same capture WITHOUT -s after a run that loaded its secrets
         for tag, runs, files in (("A,A", [a(o1), a(o2)], [o1, o2]), ("B,A", [b(o3), a(o4)], [o4]),
-                                 ("B-aborted,A", [bad_out, bad_keys, a(o5)], [o5])):
+                                 ("B-aborted,A", [bad_out, bad_keys, a(o5)], [o5]), ("A,A-without-s", [a(o7), a_nos], [])):
             p = subprocess.run([sys.executable, "-W", "ignore", "-c", INPROC, repr(runs)], cwd=tool.REPO, env=base_env,
                                stdout=subprocess.PIPE, stderr=subprocess.PIPE, text=True, timeout=300)
             status = [l for l in p.stdout.splitlines() if l.startswith("RUN")]
@@ -118,6 +133,8 @@ def one(job):
             for f in files:
                 if sha(f) != ref[1]:
                     fails.append(f"in-process-repetition:{tag}: output of run {os.path.basename(f)} differs from a fresh process")
+            if tag == "A,A-without-s" and sha(o8) != ref_nos[1]:
+                fails.append(f"in-process-repetition:{tag}: the run without -s differs from a fresh process without -s (secrets of the earlier run leaked)")
         nonempty = ref[1] is not None and len(wire.read_pcapng_strict(open(os.path.join(d, "out_hs0.pcapng"), "rb").read())) > 0
     finally:
         import shutil
